@@ -7,6 +7,7 @@ from mpf.core.events import event_handler
 from mpf.core.machine import MachineController
 from mpf.core.platform import DriverConfig, LightConfig, LightConfigColors
 from mpf.core.system_wide_device import SystemWideDevice
+from mpf.exceptions.driver_limits_error import DriverLimitsError
 from mpf.platforms.interfaces.driver_platform_interface import PulseSettings, HoldSettings
 
 MYPY = False
@@ -124,6 +125,9 @@ class DigitalOutput(SystemWideDevice):
     def pulse(self, pulse_ms):
         """Pulse digital output."""
         if self.type == "driver":
+            if not 0 <= pulse_ms <= 255:
+                raise DriverLimitsError("Digital output {} may not be pulsed with pulse_ms {} because the driver is "
+                                        "configured with max_pulse_ms 255".format(self.name, pulse_ms))
             self.hw_driver.pulse(PulseSettings(power=1.0, duration=pulse_ms))
         elif self.type == "light":
             self.hw_driver.set_fade(1.0, -1, 1.0, -1)
